@@ -13,7 +13,7 @@ from common import Disagreement, Failure
 ID = 'C01'
 DRIVER = 'drv_insp'
 DRIVER_ROOT = 'Drivers.Insp'
-PROOF_MODULES = ['OsloProofs.Props.C01', 'OsloProofs.Props.C01Slice', 'OsloProofs.Props.C01Vmdk', 'OsloProofs.Props.C01Vhdx', 'OsloProofs.Props.C01Wrap', 'OsloProofs.Props.C01WrapExp']
+PROOF_MODULES = ['OsloProofs.Props.C01', 'OsloProofs.Props.C01Slice', 'OsloProofs.Props.C01Vmdk', 'OsloProofs.Props.C01Vhdx', 'OsloProofs.Props.C01Wrap', 'OsloProofs.Props.C01WrapExp', 'OsloProofs.Props.C01Locality']
 LEVEL = 'proof'
 RULE = ('(format, bytes, chunking) triples: bytes are well-formed images of the ten layouts, field-mutated, truncated at '
         'and +-1 around every structure boundary, extended, pairwise polyglots, unstructured bytes and text, plus a '
